@@ -4,11 +4,12 @@
 # and any background run using it stay untouched; equivalent to
 #   git -C /repo apply <patch>; ./vcheck run <check>; git -C /repo checkout -- .
 id=$1; shift
+here=$(cd "$here" && pwd)
 wt=/tmp/sr-$id
 git -C /repo worktree remove --force $wt 2>/dev/null; rm -rf $wt
 git -C /repo worktree add -q --detach $wt HEAD || exit 2
-git -C $wt apply $(dirname "$0")/seeded/$id/patch.diff || { echo "patch does not apply"; git -C /repo worktree remove --force $wt; exit 2; }
-cd "$(dirname "$0")"
+git -C $wt apply $here/seeded/$id/patch.diff || { echo "patch does not apply"; git -C /repo worktree remove --force $wt; exit 2; }
+cd "$here"
 mkdir -p /tmp/sr-out
 for c in "$@"; do
   out=$(VERIF_REPO=$wt VERIF_EVIDENCE_DIR=/tmp/sr-out VERIF_REPLAY_DIR=/tmp/sr-out VERIF_WORK_SUFFIX=-seed ./vcheck run $c 2>&1); rc=$?
